@@ -705,3 +705,58 @@ func (d *Driver) reflectSeqs(lists [][]*Spec, alpha []*Spec) {
 	})
 	d.Samples = append(d.Samples, map[string]any{"family": "reflect-sequences", "lists": len(lists), "alphabet": Describe(alpha)})
 }
+
+// LengthSweepStrings returns, for every length 1..maxLen, strings of that length made of a
+// plain letter with one special unit (none, quote, newline, invalid byte, two-byte rune,
+// U+2028) at the start, the middle and the end. Fast paths and scratch arrays of fixed size
+// sit between hand-picked boundary lengths; the sweep visits every length.
+func LengthSweepStrings(maxLen int) []string {
+	var out []string
+	seen := map[string]bool{}
+	for L := 1; L <= maxLen; L++ {
+		for _, sp := range []string{"", "\"", "\n", "\xff", "é", " "} {
+			for _, pos := range []int{0, L / 2, L - len(sp)} {
+				if pos < 0 || pos+len(sp) > L {
+					continue
+				}
+				s := strings.Repeat("s", pos) + sp + strings.Repeat("s", L-pos-len(sp))
+				if !seen[s] {
+					seen[s] = true
+					out = append(out, s)
+				}
+			}
+		}
+	}
+	return out
+}
+
+// StringLengths runs every sweep string as a string value, as a byte-string value, as a key,
+// as the message and as the logger name, in the call-site fields and in a With context.
+func (d *Driver) StringLengths(maxLen int) {
+	strs := LengthSweepStrings(maxLen)
+	c := DefaultCfg()
+	shards := 32
+	par.For(shards, func(sh int) {
+		l := d.local("string-lengths")
+		enc := zapcore.NewJSONEncoder(c.EncoderConfig())
+		for si := sh; si < len(strs); si += shards {
+			s := strs[si]
+			bs := fixed("bytestring", func(k string) zapcore.Field { return zap.ByteString(k, []byte(s)) }, jsonx.S(FixUTF8(s)))
+			e := DefaultEnt()
+			e.Message, e.Name = s, s
+			for pi, p := range []Placement{
+				{Call: []*Spec{StringLeaf(s), bs, Keyed(s)}},
+				{With: [][]*Spec{{StringLeaf(s), Keyed(s)}}, Call: []*Spec{plain()}},
+			} {
+				p := p
+				l.one(c, enc, e, p, pi == 1 || si%2 == 0, func(kind, msg string) string {
+					return fmt.Sprintf("string-length:%s:%s", kind, msgClass(msg))
+				}, func() string {
+					return fmt.Sprintf("a %d-byte string %q as value, byte-string value, key, message and logger name (%s)", len(s), clipS(s), []string{"call-site fields", "With context"}[pi])
+				})
+			}
+		}
+		l.done()
+	})
+	d.Samples = append(d.Samples, map[string]any{"family": "string-lengths", "strings": len(strs), "max_length": maxLen})
+}
